@@ -545,7 +545,12 @@ def awb_setup(ex, p):
                                                       H0.lo_(H0.raw(t.t, j)) == 0)))
         return [("ok", p_, SV(t.t, ty="list"))]
     ex.unit.bindings.update({"dis.Bytecode": bytecode, "describe_assignment_target": dat, "_parse_exception_table": pet})
+    p.pc.append(last_line(0) == Val.intv(-1))
     return dict(code=code)
+
+
+# ghost: the line in force after the first i instructions = starts_line of the latest of them that starts a line, -1 if none
+last_line = Function("C08.line_in_force_after", IntSort(), Val)
 
 
 def awb_entry_ok(H, v):
@@ -556,13 +561,26 @@ def awb_entry_ok(H, v):
 
 
 def awb_inv():
+    def sl(ctx, i):
+        ins = ctx.v("insns")
+        return ctx.H.getf(ctx.p.read(ins, ctx.H.lo_(ins) + i, ctx.H), "starts_line")
     def qf(ctx):
         d = ctx.v("with_block_info")
-        return And(d == ctx.v0("with_block_info"), Val.is_intv(ctx.v("current_line")), Val.a(d) < 0, is_exact_kind(d, "dict"))
+        # C08: the line a new entry would get is the line in force at this instruction - EVERY instruction that starts a line
+        # counts, whatever its opcode (argument prefixes included)
+        return And(d == ctx.v0("with_block_info"), Val.is_intv(ctx.v("current_line")), Val.a(d) < 0, is_exact_kind(d, "dict"),
+                   ctx.v("current_line") == last_line(ctx.k), ctx.v("insns") == ctx.v0("insns"))
+    def defs(ctx):
+        s_ = sl(ctx, ctx.k)
+        return last_line(ctx.k + 1) == If(Val.is_none(s_), last_line(ctx.k), s_)
     def per_key(ctx, pth, kk):
         d = ctx.v("with_block_info")
-        return Implies(ctx.H.dhas(d, kk), awb_entry_ok(ctx.H, ctx.H.dget(d, kk)))
-    return Inv("C01.table.scan", qf=qf, dforalls=[("with_block_info", per_key)], dicts=["with_block_info"], header="enumerate(insns)",
+        w = z3.Int("w_line")
+        e = ctx.H.dget(d, kk)
+        # ... and every entry made so far carries the line that was in force at the instruction that made it
+        return Implies(ctx.H.dhas(d, kk), And(awb_entry_ok(ctx.H, e),
+                                              z3.Exists([w], And(w >= 0, w < ctx.k, ctx.H.getf(e, "start_line") == last_line(w + 1)))))
+    return Inv("C01.table.scan", qf=qf, defs=defs, dforalls=[("with_block_info", per_key)], dicts=["with_block_info"], header="enumerate(insns)",
                fields=[(f, None) for f in CTX_FIELDS])
 
 
